@@ -306,6 +306,25 @@ def gen_case(rng, disciplined):
         pat += [("FTruncate", cut), ("FTell",), ("FWrite", bytes(rng.choice(b"cd") for _ in range(rng.randrange(1, 4)))),
                 ("FSeek", 0, 1), ("FTell",)]
         ops = ops[:rng.randrange(0, 3)] + [("FSeek", 0, 1)] + pat
+    if mode in ("r", "r+") and exists and rng.random() < 0.4:
+        # the server handle caches the position of its file object: sequential read up to P, a read of n bytes
+        # at another offset Q, then a read at exactly P + n -- the offset a stale cache would hold.  P and n
+        # are the SERVER-side request sizes (max(bufsize, size) when read-buffered), computed here.
+        if len(init) < 40:
+            init = bytes(rng.randrange(256) for _ in range(rng.randrange(40, 90)))
+
+        def req(size):
+            b = bufsize if bufsize > 1 else (8192 if bufsize == 1 else 0)
+            return max(b, size) if bufsize >= 1 else size
+        n1 = rng.randrange(1, 9)
+        p1 = min(req(n1), len(init))
+        q = rng.randrange(0, len(init) - 5)
+        n2 = rng.randrange(1, 7)
+        got2 = min(req(n2), len(init) - q)
+        tgt = p1 + got2
+        pat = [("FRead", n1), ("FSeek", q, 0), ("FRead", n2), ("FSeek", tgt, 0), ("FRead", rng.randrange(1, 9)),
+               ("FTell",), ("FSeek", rng.randrange(0, 10), 0), ("FReadline", None)]
+        ops = pat + ops
     if disciplined:
         ops = discipline(ops, mode)
         if mode != "r" and rng.random() < 0.25:
